@@ -257,6 +257,7 @@ const baseTemplate = `@C0@filetype txt;
 
     @C18@retain (
         @C19@S1.f,
+        @C22@S2.o,
     )
 }
 
@@ -301,7 +302,7 @@ func instantiate(sub map[string]string, commentAt map[int]string) string {
 		}
 		s = strings.ReplaceAll(s, "@"+sl.name+"@", v)
 	}
-	for i := 21; i >= 0; i-- {
+	for i := 22; i >= 0; i-- {
 		rep := ""
 		if c, ok := commentAt[i]; ok {
 			rep = "# " + c + "\n"
@@ -320,7 +321,7 @@ var clauses = []clause{
 	{"empty-split-legacy", ") split (\n    in  int      c,\n    out int      co,\n) using (", ") split using (\n) using ("},
 	{"no-using", ") using (\n    mem_gb   = 4,\n    threads  = 2,\n    vmem_gb  = 8,\n    volatile = strict,\n    special  = \"hi\",\n) retain (", ") retain ("},
 	{"no-stage-retain", ") retain (\n    f,\n)\n", ")\n"},
-	{"no-pipeline-retain", "\n    retain (\n        S1.f,\n    )\n", ""},
+	{"no-pipeline-retain", "\n    retain (\n        S1.f,\n        S2.o,\n    )\n", ""},
 	{"no-modifiers", ") using (\n        disabled = self.d,\n        local    = true,\n        volatile = true,\n    )", ")"},
 	{"prefix-modifiers", "    call S1(\n", "    call local volatile S1(\n"},
 	{"no-help", "\"help a\"", ""},
@@ -399,9 +400,9 @@ func main() {
 		}
 	}
 	// comments before each element kind, singly and in pairs
-	for i := 0; i <= 21; i++ {
+	for i := 0; i <= 22; i++ {
 		add(fmt.Sprintf("comment@%d", i), nil, map[int]string{i: fmt.Sprintf("comment number %d", i)}, nil)
-		for j := i + 1; j <= 21; j++ {
+		for j := i + 1; j <= 22; j++ {
 			add(fmt.Sprintf("comments@%d,%d", i, j), nil, map[int]string{i: fmt.Sprintf("comment number %d", i), j: fmt.Sprintf("comment number %d", j)}, nil)
 		}
 	}
@@ -576,7 +577,7 @@ pipeline P(
 	cases = append(cases, multi...)
 
 	r.Rule = fmt.Sprintf("a template program with %d literal/string/number/keyword slots: the base, every 1-slot and every 2-slot substitution from per-slot value lists (negative, huge and tiny numbers, every escape form, non-ASCII, nested empty collections, struct vs map literals, strings with quotes/backslashes in src/help/outname/special); "+
-		"every optional clause removed singly and in pairs (split, using, retains, modifiers in both syntaxes, help, call); all 128 combinations of local/preflight/volatile each absent, in keyword form, bound true or bound false (+disabled) on one call; for compiling sources the include-expanded rendering (what mrp records as _mrosource) must compile on its own to the same program; a comment before each of 22 element positions singly and in pairs, dangling before every closing bracket, inside collections and resource/modifier lists; all 24 orders of 4 calls; every .mro fixture of the repository; 6 include graphs. "+
+		"every optional clause removed singly and in pairs (split, using, retains, modifiers in both syntaxes, help, call); all 128 combinations of local/preflight/volatile each absent, in keyword form, bound true or bound false (+disabled) on one call; for compiling sources the include-expanded rendering (what mrp records as _mrosource) must compile on its own to the same program; a comment before each of 23 element positions singly and in pairs, dangling before every closing bracket, inside collections and resource/modifier lists; all 24 orders of 4 calls; every .mro fixture of the repository; 6 include graphs. "+
 		"oracle: formatted text parses, canonical position-free tree equal, comments kept (exactly once when not dangling), fixed point, compiles if the source did, include-expanded text compiles alone with an equal call graph. distinct = distinct source texts; non-trivial = accepted by the parser", len(slots))
 	if only := os.Getenv("VERIF_ONLY"); only != "" {
 		var sel []Case
